@@ -255,6 +255,8 @@ fn run_episode(ep: &Value, epno: usize, cache: &mut HashMap<String, Vocab>, tr: 
         if ep["log_vocab"].as_u64().unwrap_or(0) != 0 {
             cj["tok"] = voc.to_json()["tok"].clone();
         }
+        // the grammar neither names tokens nor lets a lexeme end at EOS: a committed EOS token always ends the run
+        cj["eosplain"] = json!(ep["eos_plain"].as_u64().unwrap_or(0));
         cfg_json.push(cj);
         match Cfg::new(voc, vid, cd) {
             Ok(c) => cfgs.push(c),
